@@ -225,16 +225,21 @@ func (w *Worker) intrinsic(fn *ssa.Function, args []Val) (Val, bool) {
 		return r, true
 	case "math/rand.Uint32":
 		if w.randConcrete {
-			return ts.Const(32, 0x12345678), true
+			return ts.Const(32, uint64(w.rng.Uint32())), true
 		}
 		return w.freshVar("rand.Uint32", 32), true
 	case "math/rand.Read", "crypto/rand.Read":
 		s := args[0].(Slice)
 		o := w.mut(s.Obj)
-		for i := 0; i < s.Len; i++ {
-			if w.randConcrete {
-				o.Leaves[s.Off+i] = ts.Const(8, uint64(i*7+3))
-			} else {
+		if w.randConcrete {
+			// the very bytes the native run gets after rand.Seed(42) (see vRandConcrete)
+			buf := make([]byte, s.Len)
+			w.rng.Read(buf)
+			for i := 0; i < s.Len; i++ {
+				o.Leaves[s.Off+i] = ts.Const(8, uint64(buf[i]))
+			}
+		} else {
+			for i := 0; i < s.Len; i++ {
 				o.Leaves[s.Off+i] = w.freshVar("rand.Read", 8)
 			}
 		}
